@@ -186,8 +186,8 @@ func (m MapSchema[K, V]) validateSchemaCompatibility(schemaType Type) error {
 	// Must have size overlap.
 	minValue := minField.Call([]reflect.Value{})[0].Interface().(*int64)
 	maxValue := maxField.Call([]reflect.Value{})[0].Interface().(*int64)
-	if (m.MinValue != nil && maxValue != nil && (*minValue) > (*m.MaxValue)) ||
-		(m.MaxValue != nil && minValue != nil && (*maxValue) < (*m.MinValue)) {
+	if (m.MaxValue != nil && minValue != nil && (*minValue) > (*m.MaxValue)) ||
+		(m.MinValue != nil && maxValue != nil && (*maxValue) < (*m.MinValue)) {
 		return &ConstraintError{
 			Message: "mutually exclusive lengths between map schemas",
 		}
